@@ -247,3 +247,122 @@ package modfile
 //@     invariant USE_DISTINCT(f)
 //@     invariant forall d int :: 0 <= d && d < len(dirs) ==> (has(need, dirs[d].Path) && !visited(dirs[d].Path) && need[dirs[d].Path] == dirs[d].ModulePath) || (exists i int :: 0 <= i && i < len(f.Use) && f.Use[i].Path == dirs[d].Path && f.Use[i].ModulePath == dirs[d].ModulePath)
 //@   props C16
+
+//@ # ---------- Drop operations: matching entries are cleared (and their lines removed), all others are untouched (C08, C15) ----------
+//@ func (*File).DropRequire
+//@   requires f != nil && (forall i int :: 0 <= i && i < len(f.Require) ==> f.Require[i] != nil) && (forall i int, j int :: 0 <= i && i < j && j < len(f.Require) ==> f.Require[i] != f.Require[j])
+//@   modifies Require.Mod, Require.Indirect, Require.Syntax, Line.Token, Comments.Suffix
+//@   ensures len(f.Require) == old(len(f.Require))
+//@   ensures [C08, C15] dropped: forall i int :: 0 <= i && i < len(f.Require) && old(f.Require[i].Mod.Path) == path ==> f.Require[i].Mod.Path == "" && f.Require[i].Syntax == nil
+//@   ensures [C08, C15] others_kept: forall i int :: 0 <= i && i < len(f.Require) && !(old(f.Require[i].Mod.Path) == path) ==> f.Require[i].Mod.Path == old(f.Require[i].Mod.Path) && f.Require[i].Mod.Version == old(f.Require[i].Mod.Version) && f.Require[i].Indirect == old(f.Require[i].Indirect) && f.Require[i].Syntax == old(f.Require[i].Syntax)
+//@   loop 0:
+//@     invariant 0 - 1 <= @idx && @idx < len(f.Require) && f.Require == pre(f.Require)
+//@     invariant forall i int :: 0 <= i && i <= @idx && old(f.Require[i].Mod.Path) == path ==> f.Require[i].Mod.Path == "" && f.Require[i].Syntax == nil
+//@     invariant forall i int :: 0 <= i && i < len(f.Require) && (i > @idx || !(old(f.Require[i].Mod.Path) == path)) ==> f.Require[i].Mod.Path == old(f.Require[i].Mod.Path) && f.Require[i].Mod.Version == old(f.Require[i].Mod.Version) && f.Require[i].Indirect == old(f.Require[i].Indirect) && f.Require[i].Syntax == old(f.Require[i].Syntax)
+//@     decreases len(f.Require) - @idx
+//@   props C08 C15
+
+//@ func (*File).DropExclude
+//@   requires f != nil && (forall i int :: 0 <= i && i < len(f.Exclude) ==> f.Exclude[i] != nil) && (forall i int, j int :: 0 <= i && i < j && j < len(f.Exclude) ==> f.Exclude[i] != f.Exclude[j])
+//@   modifies Exclude.Mod, Exclude.Syntax, Line.Token, Comments.Suffix
+//@   ensures len(f.Exclude) == old(len(f.Exclude))
+//@   ensures [C08, C15] dropped: forall i int :: 0 <= i && i < len(f.Exclude) && old(f.Exclude[i].Mod.Path) == path && old(f.Exclude[i].Mod.Version) == vers ==> f.Exclude[i].Mod.Path == "" && f.Exclude[i].Syntax == nil
+//@   ensures [C08, C15] others_kept: forall i int :: 0 <= i && i < len(f.Exclude) && !(old(f.Exclude[i].Mod.Path) == path && old(f.Exclude[i].Mod.Version) == vers) ==> f.Exclude[i].Mod.Path == old(f.Exclude[i].Mod.Path) && f.Exclude[i].Mod.Version == old(f.Exclude[i].Mod.Version) && f.Exclude[i].Syntax == old(f.Exclude[i].Syntax)
+//@   loop 0:
+//@     invariant 0 - 1 <= @idx && @idx < len(f.Exclude) && f.Exclude == pre(f.Exclude)
+//@     invariant forall i int :: 0 <= i && i <= @idx && old(f.Exclude[i].Mod.Path) == path && old(f.Exclude[i].Mod.Version) == vers ==> f.Exclude[i].Mod.Path == "" && f.Exclude[i].Syntax == nil
+//@     invariant forall i int :: 0 <= i && i < len(f.Exclude) && (i > @idx || !(old(f.Exclude[i].Mod.Path) == path && old(f.Exclude[i].Mod.Version) == vers)) ==> f.Exclude[i].Mod.Path == old(f.Exclude[i].Mod.Path) && f.Exclude[i].Mod.Version == old(f.Exclude[i].Mod.Version) && f.Exclude[i].Syntax == old(f.Exclude[i].Syntax)
+//@     decreases len(f.Exclude) - @idx
+//@   props C08 C15
+
+//@ func (*File).DropReplace
+//@   requires f != nil && (forall i int :: 0 <= i && i < len(f.Replace) ==> f.Replace[i] != nil) && (forall i int, j int :: 0 <= i && i < j && j < len(f.Replace) ==> f.Replace[i] != f.Replace[j])
+//@   modifies Replace.Old, Replace.New, Replace.Syntax, Line.Token, Comments.Suffix
+//@   ensures len(f.Replace) == old(len(f.Replace))
+//@   ensures [C08, C15] dropped: forall i int :: 0 <= i && i < len(f.Replace) && old(f.Replace[i].Old.Path) == oldPath && old(f.Replace[i].Old.Version) == oldVers ==> f.Replace[i].Old.Path == "" && f.Replace[i].Syntax == nil
+//@   ensures [C08, C15] others_kept: forall i int :: 0 <= i && i < len(f.Replace) && !(old(f.Replace[i].Old.Path) == oldPath && old(f.Replace[i].Old.Version) == oldVers) ==> f.Replace[i].Old.Path == old(f.Replace[i].Old.Path) && f.Replace[i].Old.Version == old(f.Replace[i].Old.Version) && f.Replace[i].New.Path == old(f.Replace[i].New.Path) && f.Replace[i].New.Version == old(f.Replace[i].New.Version) && f.Replace[i].Syntax == old(f.Replace[i].Syntax)
+//@   loop 0:
+//@     invariant 0 - 1 <= @idx && @idx < len(f.Replace) && f.Replace == pre(f.Replace)
+//@     invariant forall i int :: 0 <= i && i <= @idx && old(f.Replace[i].Old.Path) == oldPath && old(f.Replace[i].Old.Version) == oldVers ==> f.Replace[i].Old.Path == "" && f.Replace[i].Syntax == nil
+//@     invariant forall i int :: 0 <= i && i < len(f.Replace) && (i > @idx || !(old(f.Replace[i].Old.Path) == oldPath && old(f.Replace[i].Old.Version) == oldVers)) ==> f.Replace[i].Old.Path == old(f.Replace[i].Old.Path) && f.Replace[i].Old.Version == old(f.Replace[i].Old.Version) && f.Replace[i].New.Path == old(f.Replace[i].New.Path) && f.Replace[i].New.Version == old(f.Replace[i].New.Version) && f.Replace[i].Syntax == old(f.Replace[i].Syntax)
+//@     decreases len(f.Replace) - @idx
+//@   props C08 C15
+
+//@ func (*WorkFile).DropReplace
+//@   requires f != nil && (forall i int :: 0 <= i && i < len(f.Replace) ==> f.Replace[i] != nil) && (forall i int, j int :: 0 <= i && i < j && j < len(f.Replace) ==> f.Replace[i] != f.Replace[j])
+//@   modifies Replace.Old, Replace.New, Replace.Syntax, Line.Token, Comments.Suffix
+//@   ensures len(f.Replace) == old(len(f.Replace))
+//@   ensures [C08, C15] dropped: forall i int :: 0 <= i && i < len(f.Replace) && old(f.Replace[i].Old.Path) == oldPath && old(f.Replace[i].Old.Version) == oldVers ==> f.Replace[i].Old.Path == "" && f.Replace[i].Syntax == nil
+//@   ensures [C08, C15] others_kept: forall i int :: 0 <= i && i < len(f.Replace) && !(old(f.Replace[i].Old.Path) == oldPath && old(f.Replace[i].Old.Version) == oldVers) ==> f.Replace[i].Old.Path == old(f.Replace[i].Old.Path) && f.Replace[i].Old.Version == old(f.Replace[i].Old.Version) && f.Replace[i].New.Path == old(f.Replace[i].New.Path) && f.Replace[i].New.Version == old(f.Replace[i].New.Version) && f.Replace[i].Syntax == old(f.Replace[i].Syntax)
+//@   loop 0:
+//@     invariant 0 - 1 <= @idx && @idx < len(f.Replace) && f.Replace == pre(f.Replace)
+//@     invariant forall i int :: 0 <= i && i <= @idx && old(f.Replace[i].Old.Path) == oldPath && old(f.Replace[i].Old.Version) == oldVers ==> f.Replace[i].Old.Path == "" && f.Replace[i].Syntax == nil
+//@     invariant forall i int :: 0 <= i && i < len(f.Replace) && (i > @idx || !(old(f.Replace[i].Old.Path) == oldPath && old(f.Replace[i].Old.Version) == oldVers)) ==> f.Replace[i].Old.Path == old(f.Replace[i].Old.Path) && f.Replace[i].Old.Version == old(f.Replace[i].Old.Version) && f.Replace[i].New.Path == old(f.Replace[i].New.Path) && f.Replace[i].New.Version == old(f.Replace[i].New.Version) && f.Replace[i].Syntax == old(f.Replace[i].Syntax)
+//@     decreases len(f.Replace) - @idx
+//@   props C08 C15
+
+//@ func (*File).DropRetract
+//@   requires f != nil && (forall i int :: 0 <= i && i < len(f.Retract) ==> f.Retract[i] != nil) && (forall i int, j int :: 0 <= i && i < j && j < len(f.Retract) ==> f.Retract[i] != f.Retract[j])
+//@   modifies Retract.VersionInterval, Retract.Rationale, Retract.Syntax, Line.Token, Comments.Suffix
+//@   ensures len(f.Retract) == old(len(f.Retract))
+//@   ensures [C08, C15] dropped: forall i int :: 0 <= i && i < len(f.Retract) && old(f.Retract[i].Low) == vi.Low && old(f.Retract[i].High) == vi.High ==> f.Retract[i].Low == "" && f.Retract[i].High == "" && f.Retract[i].Syntax == nil
+//@   ensures [C08, C15] others_kept: forall i int :: 0 <= i && i < len(f.Retract) && !(old(f.Retract[i].Low) == vi.Low && old(f.Retract[i].High) == vi.High) ==> f.Retract[i].Low == old(f.Retract[i].Low) && f.Retract[i].High == old(f.Retract[i].High) && f.Retract[i].Rationale == old(f.Retract[i].Rationale) && f.Retract[i].Syntax == old(f.Retract[i].Syntax)
+//@   loop 0:
+//@     invariant 0 - 1 <= @idx && @idx < len(f.Retract) && f.Retract == pre(f.Retract)
+//@     invariant forall i int :: 0 <= i && i <= @idx && old(f.Retract[i].Low) == vi.Low && old(f.Retract[i].High) == vi.High ==> f.Retract[i].Low == "" && f.Retract[i].High == "" && f.Retract[i].Syntax == nil
+//@     invariant forall i int :: 0 <= i && i < len(f.Retract) && (i > @idx || !(old(f.Retract[i].Low) == vi.Low && old(f.Retract[i].High) == vi.High)) ==> f.Retract[i].Low == old(f.Retract[i].Low) && f.Retract[i].High == old(f.Retract[i].High) && f.Retract[i].Rationale == old(f.Retract[i].Rationale) && f.Retract[i].Syntax == old(f.Retract[i].Syntax)
+//@     decreases len(f.Retract) - @idx
+//@   props C08 C15
+
+//@ func (*File).DropTool
+//@   requires f != nil && (forall i int :: 0 <= i && i < len(f.Tool) ==> f.Tool[i] != nil) && (forall i int, j int :: 0 <= i && i < j && j < len(f.Tool) ==> f.Tool[i] != f.Tool[j])
+//@   modifies Tool.Path, Tool.Syntax, Line.Token, Comments.Suffix
+//@   ensures len(f.Tool) == old(len(f.Tool))
+//@   ensures [C08, C15] dropped: forall i int :: 0 <= i && i < len(f.Tool) && old(f.Tool[i].Path) == path ==> f.Tool[i].Path == "" && f.Tool[i].Syntax == nil
+//@   ensures [C08, C15] others_kept: forall i int :: 0 <= i && i < len(f.Tool) && !(old(f.Tool[i].Path) == path) ==> f.Tool[i].Path == old(f.Tool[i].Path) && f.Tool[i].Syntax == old(f.Tool[i].Syntax)
+//@   loop 0:
+//@     invariant 0 - 1 <= @idx && @idx < len(f.Tool) && f.Tool == pre(f.Tool)
+//@     invariant forall i int :: 0 <= i && i <= @idx && old(f.Tool[i].Path) == path ==> f.Tool[i].Path == "" && f.Tool[i].Syntax == nil
+//@     invariant forall i int :: 0 <= i && i < len(f.Tool) && (i > @idx || !(old(f.Tool[i].Path) == path)) ==> f.Tool[i].Path == old(f.Tool[i].Path) && f.Tool[i].Syntax == old(f.Tool[i].Syntax)
+//@     decreases len(f.Tool) - @idx
+//@   props C08 C15
+
+//@ func (*File).DropGodebug
+//@   requires f != nil && (forall i int :: 0 <= i && i < len(f.Godebug) ==> f.Godebug[i] != nil) && (forall i int, j int :: 0 <= i && i < j && j < len(f.Godebug) ==> f.Godebug[i] != f.Godebug[j])
+//@   modifies Godebug.Key, Godebug.Value, Godebug.Syntax, Line.Token, Comments.Suffix
+//@   ensures len(f.Godebug) == old(len(f.Godebug))
+//@   ensures [C08, C15] dropped: forall i int :: 0 <= i && i < len(f.Godebug) && old(f.Godebug[i].Key) == key ==> f.Godebug[i].Key == "" && f.Godebug[i].Syntax == nil
+//@   ensures [C08, C15] others_kept: forall i int :: 0 <= i && i < len(f.Godebug) && !(old(f.Godebug[i].Key) == key) ==> f.Godebug[i].Key == old(f.Godebug[i].Key) && f.Godebug[i].Value == old(f.Godebug[i].Value) && f.Godebug[i].Syntax == old(f.Godebug[i].Syntax)
+//@   loop 0:
+//@     invariant 0 - 1 <= @idx && @idx < len(f.Godebug) && f.Godebug == pre(f.Godebug)
+//@     invariant forall i int :: 0 <= i && i <= @idx && old(f.Godebug[i].Key) == key ==> f.Godebug[i].Key == "" && f.Godebug[i].Syntax == nil
+//@     invariant forall i int :: 0 <= i && i < len(f.Godebug) && (i > @idx || !(old(f.Godebug[i].Key) == key)) ==> f.Godebug[i].Key == old(f.Godebug[i].Key) && f.Godebug[i].Value == old(f.Godebug[i].Value) && f.Godebug[i].Syntax == old(f.Godebug[i].Syntax)
+//@     decreases len(f.Godebug) - @idx
+//@   props C08 C15
+
+//@ func (*WorkFile).DropGodebug
+//@   requires f != nil && (forall i int :: 0 <= i && i < len(f.Godebug) ==> f.Godebug[i] != nil) && (forall i int, j int :: 0 <= i && i < j && j < len(f.Godebug) ==> f.Godebug[i] != f.Godebug[j])
+//@   modifies Godebug.Key, Godebug.Value, Godebug.Syntax, Line.Token, Comments.Suffix
+//@   ensures len(f.Godebug) == old(len(f.Godebug))
+//@   ensures [C08, C15] dropped: forall i int :: 0 <= i && i < len(f.Godebug) && old(f.Godebug[i].Key) == key ==> f.Godebug[i].Key == "" && f.Godebug[i].Syntax == nil
+//@   ensures [C08, C15] others_kept: forall i int :: 0 <= i && i < len(f.Godebug) && !(old(f.Godebug[i].Key) == key) ==> f.Godebug[i].Key == old(f.Godebug[i].Key) && f.Godebug[i].Value == old(f.Godebug[i].Value) && f.Godebug[i].Syntax == old(f.Godebug[i].Syntax)
+//@   loop 0:
+//@     invariant 0 - 1 <= @idx && @idx < len(f.Godebug) && f.Godebug == pre(f.Godebug)
+//@     invariant forall i int :: 0 <= i && i <= @idx && old(f.Godebug[i].Key) == key ==> f.Godebug[i].Key == "" && f.Godebug[i].Syntax == nil
+//@     invariant forall i int :: 0 <= i && i < len(f.Godebug) && (i > @idx || !(old(f.Godebug[i].Key) == key)) ==> f.Godebug[i].Key == old(f.Godebug[i].Key) && f.Godebug[i].Value == old(f.Godebug[i].Value) && f.Godebug[i].Syntax == old(f.Godebug[i].Syntax)
+//@     decreases len(f.Godebug) - @idx
+//@   props C08 C15
+
+//@ func (*WorkFile).DropUse
+//@   requires f != nil && (forall i int :: 0 <= i && i < len(f.Use) ==> f.Use[i] != nil) && (forall i int, j int :: 0 <= i && i < j && j < len(f.Use) ==> f.Use[i] != f.Use[j])
+//@   modifies Use.Path, Use.ModulePath, Use.Syntax, Line.Token, Comments.Suffix
+//@   ensures len(f.Use) == old(len(f.Use))
+//@   ensures [C08, C15] dropped: forall i int :: 0 <= i && i < len(f.Use) && old(f.Use[i].Path) == path ==> f.Use[i].Path == "" && f.Use[i].Syntax == nil
+//@   ensures [C08, C15] others_kept: forall i int :: 0 <= i && i < len(f.Use) && !(old(f.Use[i].Path) == path) ==> f.Use[i].Path == old(f.Use[i].Path) && f.Use[i].ModulePath == old(f.Use[i].ModulePath) && f.Use[i].Syntax == old(f.Use[i].Syntax)
+//@   loop 0:
+//@     invariant 0 - 1 <= @idx && @idx < len(f.Use) && f.Use == pre(f.Use)
+//@     invariant forall i int :: 0 <= i && i <= @idx && old(f.Use[i].Path) == path ==> f.Use[i].Path == "" && f.Use[i].Syntax == nil
+//@     invariant forall i int :: 0 <= i && i < len(f.Use) && (i > @idx || !(old(f.Use[i].Path) == path)) ==> f.Use[i].Path == old(f.Use[i].Path) && f.Use[i].ModulePath == old(f.Use[i].ModulePath) && f.Use[i].Syntax == old(f.Use[i].Syntax)
+//@     decreases len(f.Use) - @idx
+//@   props C08 C15
+
